@@ -56,9 +56,9 @@ CONF = {
         ex_q=_o(MaxEv=5), ex_t=_o(MaxEv=7),
         sim=dict(MaxRank="1")),
     "C04": dict(
-        mc_q=_o(MaxEv=4, AuditSessions='{"s1", "s2", "unset", ""}'),
+        mc_q=_o(MaxEv=4, AuditSessions='{"s1", "s2", "unset"}'),
         mc_t=_o(MaxEv=5, AuditSessions='{"s1", "s2", "unset", ""}'),
-        ex_q=_o(MaxEv=4, AuditSessions='{"s1", "s2", "unset", ""}', WithBad="TRUE"),
+        ex_q=_o(MaxEv=3, AuditSessions='{"s1", "s2", "unset", ""}', WithBad="TRUE"),
         ex_t=_o(MaxEv=6, AuditSessions='{"s1", "s2", "unset", ""}', WithBad="TRUE"),
         sim=dict(MaxRank="1")),
     "C09": dict(
